@@ -25,7 +25,7 @@ mutual
     | [] => by intro _ s hs; simp [findList?] at hs
     | k :: ks => by
       intro hv s hs
-      obtain ⟨h1, h2⟩ := validList_cons b k ks hv
+      obtain ⟨h1, h2⟩ := fc_validList_cons b k ks hv
       unfold findList? at hs
       cases hk : find? h k with
       | some t =>
@@ -64,7 +64,7 @@ theorem top_get? (g : Forest) (R : List HTree) (top : Nat) (vt : Value) (Kt : Li
     (hr : g.roots = R ++ [.node top vt Kt]) (hn : top ∉ handlesList R) :
     g.get? top = some (.node top vt Kt) := by
   unfold Forest.get?
-  rw [hr, findList?_append_of_not_mem top _ _ hn, findList?_cons_self]
+  rw [hr, findList?_append_of_not_mem top _ _ hn, fc_findList?_cons_self]
 
 theorem top_spliceOut (g : Forest) (R : List HTree) (top : Nat) (vt : Value) (C : HTree)
     (hr : g.roots = R ++ [.node top vt [C]]) (hn : top ∉ handlesList R) :
